@@ -262,8 +262,15 @@ def r3_sort_is_stable_sorted_by_comparator(ctx):
         three = lambda x, y: (x > y) - (x < y)  # noqa: E731
         three10 = lambda x, y: 10 * ((x > y) - (x < y))  # noqa: E731
         frac = lambda x, y: (x - y) / 4  # noqa: E731  (a difference comparator over values less than 1 apart)
+        # (- a b) over ratios and decimals answers with a Fraction / a Decimal: numbers, not host ints or floats
+        import decimal
+        import fractions
+        ratio = lambda x, y: fractions.Fraction(x - y, 3)  # noqa: E731
+        dec = lambda x, y: decimal.Decimal(x - y) / decimal.Decimal(4)  # noqa: E731
         for f, label, expect in ((lt_fn, "boolean <", lambda a, b: (a > b) - (a < b)), (three, "3-way", lambda a, b: (a > b) - (a < b)), (three10, "3-way scaled", lambda a, b: 10 * ((a > b) - (a < b))),
-                                 (frac, "3-way fractional (difference of close values)", lambda a, b: (a > b) - (a < b))):
+                                 (frac, "3-way fractional (difference of close values)", lambda a, b: (a > b) - (a < b)),
+                                 (ratio, "3-way answering with a ratio", lambda a, b: (a > b) - (a < b)),
+                                 (dec, "3-way answering with a decimal", lambda a, b: (a > b) - (a < b))):
             c = interp.call_function(f2c, [f], {})
             for a, b in itertools.product((1, 2, 3), repeat=2):
                 got = c(a, b)
